@@ -79,18 +79,20 @@ def _mut(g, fn):
     return r + (snap(g),)
 
 
-def impl(c):
+def impl(c, objs=None):
+    objs = {} if objs is None else objs
     op = c["op"]
-    g = build(c["tg"])
+    g = objs.setdefault("tg", None) or build(c["tg"])
+    objs["tg"] = g
     if op == "tg_add":
-        t = T.build(c["tier"])
+        t = objs["tier"] = T.build(c["tier"])
         return _mut(g, lambda: g.addTier(t, c["index"], c["report"]))
     if op == "tg_remove":
         return _mut(g, lambda: g.removeTier(c["name"]))
     if op == "tg_rename":
         return _mut(g, lambda: g.renameTier(c["name"], c["new"]))
     if op == "tg_replace":
-        t = T.build(c["tier"])
+        t = objs["tier"] = T.build(c["tier"])
         return _mut(g, lambda: g.replaceTier(c["name"], t, c["report"]))
     if op == "tg_crop":
         r = T.call(lambda: g.crop(c["a"], c["b"], c["mode"], c["rebase"]))
@@ -105,13 +107,14 @@ def impl(c):
     elif op == "tg_merge":
         r = T.call(lambda: g.mergeTiers(c.get("names"), c["preserve"]))
     elif op == "tg_append":
-        h = build(c["other"])
+        h = objs["other"] = build(c["other"])
         r = T.call(lambda: g.appendTextgrid(h, c["matching"]))
     elif op == "tg_align":
         r = T.call(lambda: praatio_scripts.alignBoundariesAcrossTiers(g, c["name"], c["maxdiff"]))
     else:
         raise KeyError(op)
     if r[0] == "ok":
+        objs["result"] = r[1]
         out = ("ok", snap(r[1]))
         if op in ("tg_crop", "tg_erase", "tg_space"):
             out = out + (T.call(lambda: r[1].validate("silence")),)
